@@ -261,7 +261,7 @@ def norm_events(path, run):
     """One recorded process -> uniform event records for SharedTables_Trace (projection: ids + 1, absent fields
     filled in) with exact repetitions of an access tuple (goroutine, table, write, locked, flag) dropped: the
     judgement of an access depends on that tuple and on reach/shared, which a repetition cannot change."""
-    out = [{"run": run, "e": "reset", "g": 0, "n": 0, "t": 0, "w": False, "l": False, "s": False, "f": "", "h": []}]
+    out = [{"run": run, "e": "reset", "g": 0, "n": 0, "t": 0, "w": False, "l": False, "x": False, "s": False, "f": "", "h": []}]
     seen = set()
     raw = 0
     ch = lambda c: [[int(t) + 1, int(f)] for t, f in c]
@@ -276,14 +276,14 @@ def norm_events(path, run):
                 raise vf.NoVerdict("unreadable event in %s: %r" % (path, line[:120]))
             raw += 1
             if ev["e"] == "acc":
-                key = (ev["g"], ev["t"], ev["w"], ev["l"], ev["s"], ev.get("f", ""))
+                key = (ev["g"], ev["t"], ev["w"], ev["l"], ev.get("x", ev["l"]), ev["s"], ev.get("f", ""))
                 if key in seen and "c" not in ev:
                     continue
                 seen.add(key)
-                out.append({"run": run, "e": "acc", "g": ev["g"], "n": 0, "t": ev["t"] + 1, "w": ev["w"], "l": ev["l"],
+                out.append({"run": run, "e": "acc", "g": ev["g"], "n": 0, "t": ev["t"] + 1, "w": ev["w"], "l": ev["l"], "x": ev.get("x", ev["l"]),
                             "s": ev["s"], "f": ev.get("f", ""), "h": [ch(ev["c"])] if "c" in ev else []})
             else:
-                out.append({"run": run, "e": ev["e"], "g": ev["g"], "n": ev.get("n", 0), "t": 0, "w": False, "l": False,
+                out.append({"run": run, "e": ev["e"], "g": ev["g"], "n": ev.get("n", 0), "t": 0, "w": False, "l": False, "x": False,
                             "s": False, "f": "", "h": [ch(c) for c in ev["h"]]})
     return out, raw
 
@@ -295,6 +295,8 @@ _EGO = "github.com/tucats/ego/internal/"
 
 def _frame_class(frames):
     """Innermost interpreter frame of one side of a report: the symbols package as a whole, else package.function."""
+    if any(f.endswith("(*Context).fetchArgValue") for f in frames):
+        return "bytecode.Context.fetchArgValue"        # the parameter prologue of a call (type check of an argument)
     for f in frames:
         if f.startswith(_EGO):
             f = f[len(_EGO):]
@@ -535,6 +537,7 @@ def run():
             raise vf.NoVerdict("generator too weak: %d exhaustive cases, %d bigger ones" % (nex, len(big)))
         if any(c["out"] != c["exp"] for c in cases + big):
             raise vf.NoVerdict("a finished behaviour printed something else than its builder declared")
+        vf.log("C08: TLC stages done, %d + %d cases; race build ready" % (nex, len(big)))
         # 3. spec vs Go
         gd = os.path.join(sd, "gox")
         os.makedirs(gd)
@@ -548,6 +551,7 @@ def run():
             if not agree(c, o):
                 raise vf.NoVerdict("specification bug: for the program %s ConcProg predicts %s, Go prints %s" % (c["id"], c["out"], o))
         chk.cov["spec_vs_go"] = "%d programs printed as Go: Go prints exactly what ConcProg predicts" % len(allc)
+        vf.log("C08: Go cross-check done")
         # 4. R on the race build
         per = 16
         byform = {}
@@ -608,12 +612,13 @@ def run():
                                   "printed %s%s %s" % (c["id"], procs, yld, c["out"], o2["out"], "" if o2["ended"] else " and did not finish",
                                                        se2.strip()[-200:]),
                                   {"mode": "R", "cases": [c], "gomaxprocs": procs, "yield": yld, "observed": o2, "program": render([c])})
+        vf.log("C08: R stage done: %d processes, %d candidate violations" % (stats["procs"], len(chk.cands)))
         # 5. T
         tsel, seen = [], set()
         tp = list(cases)
         rng.shuffle(tp)
         for c in tp:
-            key = (c["form"], c["site"], c["shape"], c["fam"]) if thorough else (c["form"], c["site"], c["shape"] if c["fam"] == "counter" else c["fam"])
+            key = (c["form"], c["site"], c["shape"], c["fam"]) if thorough else (c["form"], c["site"] if c["fam"] == "counter" else c["fam"], c["shape"])
             if key not in seen:
                 seen.add(key)
                 tsel.append(c)
@@ -621,6 +626,7 @@ def run():
             tsel += rng.sample(big, min(len(big), 20))
         evs, bad, loose, raw, used = _trace_stage(chk, ego, env, sd, tsel, "t", 900)
         _trace_violations(chk, bad)
+        vf.log("C08: T stage done: %d programs, %d events, %d offending" % (len(used), len(evs), len(bad)))
         # 6. binding self-tests
         okrun = next(((b, r_) for b, _p, _y, r_, _q in runs if r_[0] == 0 and len(b) > 1), None)
         if okrun:
@@ -633,29 +639,31 @@ def run():
             chk.cov["binding_selftest_R"] = "%d of %d perturbed expectations rejected" % (rej, len(b))
         elif not chk.cands:
             raise vf.NoVerdict("no shared process ended normally")
-        badidx = {b["idx"] for b in bad}
-        cor = [dict(e) for e in evs]
-        done = {"fork": 0, "acc": 0}
-        for i, e in enumerate(cor):
-            if (i + 1) in badidx:
-                continue
-            if e["e"] == "fork" and e["h"] and not done["fork"] and all(f == 1 for ch_ in e["h"] for _t, f in ch_):
-                e["h"] = [[[t, 0] if j == 0 else [t, f] for j, (t, f) in enumerate(ch_)] for ch_ in e["h"]]
-                done["fork"] = i + 1
-            elif e["e"] == "acc" and e["s"] and e["l"] and e["f"] == "Set" and not done["acc"] and done["fork"]:
-                others = [x for x in cor if x["run"] == e["run"] and x["e"] == "acc" and x["t"] == e["t"] and x["g"] != e["g"]
-                          and x["f"] in ("Get", "Set")]
-                if others:
-                    e["l"] = False
-                    done["acc"] = i + 1
-        if not (done["fork"] and done["acc"]):
+        badruns = {b["run"] for b in bad}
+        cor, done = [], {}
+        for rn in sorted({e["run"] for e in evs} - badruns):       # one recorded process the spec accepted
+            cor = [dict(e) for e in evs if e["run"] == rn]
+            done = {"fork": 0, "acc": 0}
+            for i, e in enumerate(cor):
+                if e["e"] == "fork" and e["h"] and not done["fork"] and all(f == 1 for ch_ in e["h"] for _t, f in ch_):
+                    e["h"] = [[[t, 0] if j == 0 else [t, f] for j, (t, f) in enumerate(ch_)] for ch_ in e["h"]]
+                    done["fork"] = i + 1
+                elif e["e"] == "acc" and e["s"] and e["l"] and e["f"] == "Set" and not done["acc"] and done["fork"]:
+                    if any(x["e"] == "acc" and x["t"] == e["t"] and x["g"] != e["g"] and x["f"] in ("Get", "Set") for x in cor):
+                        e["l"] = e["x"] = False
+                        done["acc"] = e["t"]
+            if done["fork"] and done["acc"]:
+                break
+        if not (done.get("fork") and done.get("acc")):
             raise vf.NoVerdict("binding self-test (T): nothing to corrupt in the recorded traces")
         cp = vf.write_ndjson(os.path.join(sd, "corrupt.ndjson"), cor)
         rc_ = vf.tlc(SPEC, "SharedTables_Trace", "SharedTables_Trace.cfg", sd, workers=1, files={"trace.ndjson": cp}, timeout=3000)
         rep = [x for x in rc_.records if isinstance(x, dict) and "bad" in x]
-        got = {(b["idx"], b["rule"]) for b in (rep[-1]["bad"] if rep and isinstance(rep[-1]["bad"], list) else [])}
-        if (done["fork"], "ForkSound") not in got or (done["acc"], "I2") not in got:
-            raise vf.NoVerdict("binding self-test (T) failed: corrupted events %s were not rejected (%s)" % (done, sorted(got)[:6]))
+        gotb = rep[-1]["bad"] if rep and isinstance(rep[-1]["bad"], list) else []
+        if not any(b["idx"] == done["fork"] and b["rule"] == "ForkSound" for b in gotb) \
+                or not any(b["t"] == done["acc"] and b["rule"] == "I2" for b in gotb):
+            raise vf.NoVerdict("binding self-test (T) failed: corrupted events %s were not rejected (%s)"
+                               % (done, [(b["idx"], b["rule"], b["t"]) for b in gotb][:6]))
         chk.cov["binding_selftest_T"] = "a cleared flag in a fork event and a dropped mutex on a shared write were both rejected"
         # evidence
         chk.cov["traces_validated_against_impl"] = stats["run"] + len(used)
